@@ -7,6 +7,7 @@
 //! trusted: R15 (deep slice): OutboundPayments::fail_htlc decodes the onion failure and works on a HashMap entry under a mutex; the unit extracts the whole per-payment block of the Occupied arm verbatim as a function of the payment (checked against the proved contracts of remove / is_fulfilled / mark_abandoned above); `payment.get()/get_mut()` become the reference itself, `payment.remove()` sets a flag, `return;` returns None (R5); is_auto_retryable_now / insert_previously_failed_* are external_body (retry strategy opaque; frame assumed); Event reduced to PaymentFailed; the path events built afterwards are dropped and not claimed
 //! trusted: R15 (deep slice): OutboundPayments::claim_htlc: the whole per-payment block of the Occupied arm verbatim as a function of the payment and the event queue (a Vec here; push_back -> push); Sha256::hash(..).to_byte_array() is the external_body wrapper sha256 (R8); Event reduced to the three variants used
 //! trusted: R15 (deep slice): OutboundPayments::abandon_payment: the per-payment block verbatim (same conventions as fail_htlc / claim_htlc)
+//! trusted: R15 (deep slice): OutboundPayments::insert_from_monitor_on_startup: the Occupied arm's `match entry.get() { .. }` with the function-local macro new_retryable! (part of the slice), verbatim as a function of the map entry (a stub holding the payment; get / get_mut external_body), hash_set_from_iter([x]) is the one-element set, PaymentAttempts::new() opaque; the Vacant arm (a fresh Retryable from the same macro) is not sliced
 //! trusted: R15 (slices): pay_route_internal: the loop that classifies the per-path send results (R6: `for (res, path) in results.iter().zip(route.paths.iter())` becomes an index loop over the shorter length; body verbatim) and the expression giving the retry amount; sending the paths and building the error value are dropped and not claimed; APIError reduced to three variants
 //! assume: fail_htlc: a failure attributed to a blinded path carries no short_channel_id and the failed path has a blinded tail (debug_asserts on decode_onion_failure's result)
 //! assume: callers keep the representation invariant pending_amt_msat >= value of every in-flight path (and pending_fee_msat >= its fee); remove()/insert() are not called on pre-HTLC states (LDK's debug_assert!(false) arms)
@@ -206,6 +207,46 @@ impl PendingOutboundPayment {
 }
 
 
+// ---- restart: a payment part the monitors hold is put back into the payment it belongs to (deep R15 slice of insert_from_monitor_on_startup) ----
+#[verifier::external_body]
+fn hash_set_from_iter(a: [[u8; 32]; 1]) -> (r: HashSet<[u8; 32]>) ensures r@ == Set::<[u8;32]>::empty().insert(a[0]) { unimplemented!() }
+impl PaymentAttempts { #[verifier::external_body] pub fn new() -> (r: PaymentAttempts) { unimplemented!() } }
+pub struct OccupiedEntry { pub v: PendingOutboundPayment }
+impl OccupiedEntry {
+    #[verifier::external_body] pub fn get(&self) -> (r: &PendingOutboundPayment) ensures *r == self.v { unimplemented!() }
+    #[verifier::external_body] pub fn get_mut(&mut self) -> (r: &mut PendingOutboundPayment) ensures *r == old(self).v, final(self).v == *final(r) { unimplemented!() }
+}
+//@extract lightning/src/ln/outbound_payment.rs :: impl OutboundPayments :: fn insert_from_monitor_on_startup
+//@slice R15
+    let path_amt = path.final_value_msat(); let path_fee = path.fee_msat(); macro_rules! new_retryable { $m:any } match self.pending_outbound_payments.lock().unwrap().entry(payment_id) { hash_map::Entry::Occupied(mut entry) => { let newly_added = match entry.get() { $arms:any };
+//@with
+    fn put_back_part_known_to_a_monitor(entry: &mut OccupiedEntry, payment_hash: PaymentHash, session_priv_bytes: [u8; 32], path: &Path, best_block_height: u32) -> bool {
+        let path_amt = path.final_value_msat(); let path_fee = path.fee_msat();
+        macro_rules! new_retryable { $m }
+        let newly_added = match entry.get() { $arms };
+        newly_added
+    }
+//@ret r
+//@requires
+    old(entry).v is Retryable ==> old(entry).v->Retryable_pending_amt_msat + path.v <= u64::MAX
+        && (old(entry).v->Retryable_pending_fee_msat is Some ==> old(entry).v->Retryable_pending_fee_msat->Some_0 + path.f <= u64::MAX),
+//@ensures P C03,C10 on-restart-an-htlc-the-monitors-hold-is-tracked-again-by-its-payment-a-payment-still-waiting-for-its-invoice-becomes-in-flight-and-a-resolved-payment-stays-resolved
+    // a payment that had not yet recorded any part (the manager was written before it left the BOLT 12 waiting states) becomes in flight with exactly this part
+    (old(entry).v is AwaitingOffer || old(entry).v is AwaitingInvoice || old(entry).v is InvoiceReceived || old(entry).v is StaticInvoiceReceived) ==> (
+        r && final(entry).v is Retryable && final(entry).v.privs() == Set::<[u8;32]>::empty().insert(session_priv_bytes)
+        && final(entry).v.spec_hash() == Some(payment_hash) && final(entry).v.spec_pending_amt() == path.v && final(entry).v.spec_total() == Some(path.v) && final(entry).v.spec_fee() == Some(path.f)),
+    // a payment in flight tracks the part (once)
+    (old(entry).v is Legacy || old(entry).v is Retryable) ==> (final(entry).v.privs() == old(entry).v.privs().insert(session_priv_bytes) && r == !old(entry).v.privs().contains(session_priv_bytes)
+        && (final(entry).v is Retryable <==> old(entry).v is Retryable)),
+    // a resolved payment is not reopened
+    (old(entry).v is Fulfilled || old(entry).v is Abandoned) ==> (!r && final(entry).v == old(entry).v),
+//@at body_start
+    proof { axiom_u8_32_key_model(); }
+//@mutant waiting_payment_left_waiting_on_restart
+    *entry.get_mut() = new_retryable!(); true
+//@with
+    true
+//@end
 // ---- how long a completed payment's id stays reserved (deep R15 slice of OutboundPayments::remove_stale_payments) ----
 //@const lightning/src/ln/outbound_payment.rs IDEMPOTENCY_TIMEOUT_TICKS
 //@extract lightning/src/ln/outbound_payment.rs :: impl OutboundPayments :: fn remove_stale_payments
